@@ -5,23 +5,21 @@ from .tables import is_true, is_false
 from . import c07
 
 EXPLANATION = (
-    'Static clauses: (R1) the key under which alpha_beta_minimax memoises its result covers everything the result '
-    'depends on: position (key), remaining depth, side to move / maximising flag, alpha, beta; each key component '
-    'is an influencer itself or a provably injective packing of influencers (bit-range analysis of casts, shifts, '
-    'masks and `|`: no field can overwrite another, nothing is sign-extended, shifted or masked away); (R2) the '
-    'maximising and the minimising loop are exact duals: value init MIN/MAX, child searched with (depth-1, current '
-    'window, negated flag), value = max/min(value, child), window update on the own bound, cut-off test beta <= '
-    'alpha - which is the ONLY data-dependent branch of an iteration (no second exit from, no shortcut inside, the '
-    'move loop) -, store and return the value (the function is analysed once per value of the maximising flag, so a'
-    ' loop body shared by both players splits into these two branches); (R3) leaf and no-move returns are '
-    'evaluate::score(board, mg, board.turn(), depth), whatever is stored in the cache is stored under the key '
-    'probed at entry and is the value returned, children are searched between apply;toggle and undo;toggle, the '
-    'root passes depth-1, the full window and the negated maximise flag of the side to move; (R4) the root picks '
-    'arg-max / arg-min of the scored list (descending sort, reversed iff maximising, pop). (R5) the cache '
-    'primitives use the key they are given verbatim: one look-up, one insert; (R6) every node and the root search '
-    "ALL legal moves: the list iterated is the generator's list for (board, side to move) passed only through "
-    'reordering functions (sort / reverse / swap), nothing is filtered, truncated or dropped. Numerical equality '
-    'with minimax (soundness of pruning as arithmetic) and hash collisions are NOT decided.'
+    'Static clauses: (R1) the key under which alpha_beta_minimax memoises its result covers everything the result depends on: position '
+    '(key), remaining depth, side to move / maximising flag, alpha, beta; each key component is an influencer itself or a provably '
+    'injective packing of influencers (bit-range analysis of casts, shifts, masks and `|`: no field can overwrite another, nothing is '
+    'sign-extended, shifted or masked away); (R2) the maximising and the minimising loop are exact duals: value init MIN/MAX, child '
+    'searched with (depth-1, current window, negated flag), value = max/min(value, child), window update on the own bound, cut-off test'
+    ' beta <= alpha - which is the ONLY data-dependent branch of an iteration (no second exit from, no shortcut inside, the move loop) '
+    '-, store and return the value (the function is analysed once per value of the maximising flag, so a loop body shared by both '
+    'players splits into these two branches); (R3) leaf and no-move returns are evaluate::score(board, mg, board.turn(), depth), '
+    'whatever is stored in the cache is stored under the key probed at entry and is the value returned, children are searched between '
+    'apply;toggle and undo;toggle, the root passes depth-1, the full window and the negated maximise flag of the side to move; (R4) the'
+    ' root picks arg-max / arg-min of the scored list (descending sort, reversed iff maximising, pop). (R5) the cache primitives use '
+    'the key they are given verbatim: one look-up, one insert; (R6) every node and the root search ALL legal moves: the list iterated '
+    "is the generator's list for (board, side to move) passed only through reordering functions (sort / reverse / swap), nothing is "
+    'filtered, truncated or dropped. Numerical equality with minimax (soundness of pruning as arithmetic) and hash collisions are NOT '
+    'decided. (R7) no value depends on a visit counter (imports C09.R2).'
 )
 ASSUMPTIONS = [
     "alpha-beta pruning with the window discipline pinned by R2/R3 returns the minimax value (textbook theorem, not re-proved)",
